@@ -20,12 +20,16 @@ def runScript (read : Read) (l : Lexer) (ops : List String) : List String :=
     | [] => acc.reverse
     | op :: rest =>
       if op == "S" then let l := l.start read; go rest l laEnd (fmtState l :: acc)
-      else if op == "A" then let l := l.advance read false; go rest l laEnd (fmtState l :: acc)
-      else if op == "K" then let l := l.advance read true; go rest l laEnd (fmtState l :: acc)
+      else if op == "A" then let l := if l.eof && !l.chunk.isEmpty then l else l.advance read false; go rest l laEnd (fmtState l :: acc)
+      else if op == "K" then let l := if l.eof && !l.chunk.isEmpty then l else l.advance read true; go rest l laEnd (fmtState l :: acc)
       else if op == "M" then let l := l.markEnd; go rest l laEnd (fmtState l :: acc)
       else if op == "F" then
         let (l, e) := l.finish laEnd
         go rest l e ((fmtState l ++ s!",{e}") :: acc)
+      else if op == "I" then let l := l.setInput; go rest l laEnd (fmtState l :: acc)
+      else if op == "C" then
+        let (l, c) := l.getColumn read
+        go rest l laEnd ((fmtState l ++ s!",{c}") :: acc)
       else if op.startsWith "R:" then
         match (op.splitOn ":").map natOf with
         | [_, b, r, c] => let l := l.reset ⟨b, ⟨r, c⟩⟩; go rest l laEnd (fmtState l :: acc)
@@ -115,7 +119,8 @@ def runDrive (s : St) : String :=
           else
             -- erroneous inputs: recovery is steered by costs that count skipped BYTES (encoding dependent) and by
             -- the order in which stack versions are advanced (restarted from version 0 on resume)
-            let err := hasErr canon.root || hasErr t.root
+            -- BOTH trees must be erroneous: an error-free canonical tree against an erroneous drive tree is never excused
+            let err := hasErr canon.root && hasErr t.root
             let cause := if s.kind == "utf16" && err then "utf16-error-recovery"
               else if s.kind == "cancel-resume" && err then "resume-error-recovery"
               else if s.kind == "cancel-resume" && sameModuloStates canon.root t.root then "resume-token-parse-state"
